@@ -110,9 +110,9 @@ def main():
     ndocs = len(docs) if tier == "thorough" else 8
     tasks = []
     # the Max-SMT back ends cost ~0.3 s per block (solver process): they get a fixed stride of the templates;
-    # quick: only the default option set sees every template, the other greedy sets a third each
-    stride = {"quick": 45, "thorough": 12}[tier]
-    gstride = {"quick": 3, "thorough": 1}[tier]
+    # quick: only the default option set sees every template, the other greedy sets a quarter each
+    stride = {"quick": 90, "thorough": 12}[tier]
+    gstride = {"quick": 4, "thorough": 1}[tier]
     for k, o in enumerate(optsets):
         if o["backend"] == "greedy":
             g = 1 if k == 0 else gstride
